@@ -52,6 +52,7 @@ func main() {
 	repo := flag.String("repo", "/repo", "repository root")
 	fnre := flag.String("fn", "", "regexp over function display names (pkg.Key)")
 	dump := flag.String("dump", "", "dump SMT script of the obligation with this name")
+	axiomF := flag.String("axiom", "", "verify the package initialiser against this axiom instead of functions")
 	quick := flag.Int("quick-ms", 3000, "first-stage timeout")
 	full := flag.Int("full-ms", 10000, "race timeout")
 	kinds := flag.String("kinds", "", "comma list of obligation kinds to keep (default all)")
@@ -98,6 +99,9 @@ func main() {
 			r.Obls = f
 		}
 		results = append(results, r)
+	}
+	if *axiomF != "" {
+		results = P.axiomObligations([]*FuncResult{{Spec: &FuncSpec{Uses: []string{*axiomF}}}})
 	}
 	fmt.Printf("generated in %.1fs\n", time.Since(t0).Seconds())
 	if *dump != "" {
